@@ -174,12 +174,30 @@ fn run_instructions(
                 }
 
                 if let Some(exit_code_str) = output {
-                    if let Ok(exit_code) = exit_code_str.parse::<i32>() {
-                        if exit_code != 0 {
-                            return Err(ScriptError::Runtime(
-                                format!("Exit with error code: {}", exit_code).to_string(),
-                                Some(meta_info.clone()),
-                            ));
+                    match exit_code_str.parse::<i32>() {
+                        Ok(exit_code) => {
+                            if exit_code != 0 {
+                                return Err(ScriptError::Runtime(
+                                    format!("Exit with error code: {}", exit_code).to_string(),
+                                    Some(meta_info.clone()),
+                                ));
+                            }
+                        }
+                        Err(_) => {
+                            // an integer too large for the exit code type is still a non zero integer
+                            let digits = exit_code_str
+                                .strip_prefix('+')
+                                .or_else(|| exit_code_str.strip_prefix('-'))
+                                .unwrap_or(&exit_code_str);
+                            if !digits.is_empty()
+                                && digits.chars().all(|character| character.is_ascii_digit())
+                                && digits.chars().any(|character| character != '0')
+                            {
+                                return Err(ScriptError::Runtime(
+                                    format!("Exit with error code: {}", exit_code_str).to_string(),
+                                    Some(meta_info.clone()),
+                                ));
+                            }
                         }
                     }
                 }
